@@ -52,7 +52,7 @@ def build(sym, shape, opts, focus):
     ti = TreeInfo()
     ti.release.name = text(sym, "r_name", 3, focus)
     ti.release.short = text(sym, "r_short", 3, focus)
-    ti.release.version = text(sym, "r_version", 4, focus)
+    ti.release.version = text(sym, "r_version", 5, focus)          # 5: three-component versions ("8.4.0") are inside the bound
     ti.release.is_layered = opts["layered"]
     if opts["layered"]:
         ti.base_product.name = text(sym, "bp_name", 3, focus)
